@@ -96,7 +96,8 @@ int main(int argc, char **argv) {
         Segment &seg = *pseg;
         const Silf &silf = *face->chooseSilf(0);
         g_events += "P" + snapshot(&seg) + ";";
-        for (size_t k = 5; k < f.size(); k++) {
+        bool died = false;       // a program that does not finish makes the real engine give up the whole segment (gr_make_seg returns NULL)
+        for (size_t k = 5; k < f.size() && !died; k++) {
             std::vector<std::string> a; { std::istringstream is(f[k]); std::string x; while (std::getline(is, x, ':')) a.push_back(x); }
             if (a.size() < 4) continue;
             size_t pos = strtoul(a[0].c_str(), 0, 10), len = strtoul(a[1].c_str(), 0, 10), pre = strtoul(a[2].c_str(), 0, 10);
@@ -120,7 +121,8 @@ int main(int argc, char **argv) {
                         smap.highpassed(false);
                         int32 ret = prog.run(m, map);
                         Slot *slot_out = (m.status() == Machine::finished) ? *map : 0;
-                        if (prog.deletes()) smap.collectGarbage(slot_out);
+                        if (m.status() != Machine::finished) died = true;
+                        else if (prog.deletes()) smap.collectGarbage(slot_out);
                         char t3[64]; snprintf(t3, sizeof t3, " R%d,%d", (int)m.status(), (int)ret); verdicts += t3;
                     }
                 }
@@ -166,6 +168,7 @@ int main(int argc, char **argv) {
                 }
             }
         }
+        if (died) wf = "died";          // no segment is returned: the state is not observable through the API
         printf("%s WF=%s V%s | T nc=%zu,rtl=%d %sF%s%s%s\n", id.c_str(), wf.c_str(), verdicts.c_str(), (size_t)seg.charInfoCount(), dir & 1, g_events.c_str(), snapshot(&seg).c_str(), cin.c_str(), idx.c_str());
         gr_seg_destroy(gseg);
         fflush(stdout);
